@@ -137,6 +137,7 @@ class OperationGroup(ContextMixin, ContentMixin):
         protocol = self.protocol or self.context.get_protocol()
         branch = self.branch or self.shell.blocks[f'head~{MAX_OPERATIONS_TTL - ttl}'].hash()
         source = self.key.public_key_hash()
+        signature_size = 96 if source.startswith('tz4') else 64
         constants = self.shell.head.context.constants()
 
         if counter is not None:
@@ -172,7 +173,8 @@ class OperationGroup(ContextMixin, ContentMixin):
                     storage_limit if storage_limit is not None else default_storage_limit(x, constants),
                 )
             ),
-            'fee': lambda i, x: str(default_fee(x, gas_limit, minimal_nanotez_per_gas_unit) if i == 0 else 0),
+            # NOTE: every content pays for its own bytes and gas limit, the node checks the totals
+            'fee': lambda i, x: str(default_fee(x, int(x['gas_limit']), minimal_nanotez_per_gas_unit, signature_size)),
         }
 
         def fill_content(idx, content):
@@ -271,7 +273,8 @@ class OperationGroup(ContextMixin, ContentMixin):
             raise RpcError.from_errors(OperationResult.errors(opg_with_metadata))
 
         fee_acc = 0
-        extra_size = 32 + 64  # size of serialized branch and signature + safe reserve
+        signature_size = 96 if self.key.public_key_hash().startswith('tz4') else 64
+        extra_size = 32 + signature_size  # size of serialized branch and signature + safe reserve
         num_contents = len(opg_with_metadata['contents'])
         counter_offset = self.context.get_counter_offset()
         opg.contents.clear()
